@@ -77,10 +77,12 @@ Lemma eliminate_loop_sound rk : forall order tbl (done : N -> Prop),
     (forall sg cd, cells_meaning (lookup tbl) sg cd -> cells_meaning (lookup tbl') sg cd) /\
     (forall n, lookup tbl n <> None -> lookup tbl' n <> None) /\
     (forall n, done n \/ In n order ->
-       exists c', lookup tbl' n = Some c' /\ a_plain (c_geom c') = true).
+       exists c', lookup tbl' n = Some c' /\ a_plain (c_geom c') = true) /\
+    table_ok (lookup tbl') rk.
 Proof.
   induction order as [|n rest IH]; intros tbl done Hok Hin Hdone.
-  - exists 0, tbl. repeat split; auto. intros n [H|[]]. now apply Hdone.
+  - exists 0, tbl. split; [reflexivity|]. split; [auto|]. split; [auto|]. split; [|exact Hok].
+    intros n [H|[]]. now apply Hdone.
   - destruct (lookup tbl n) as [c|] eqn:Ec; [|exfalso; apply (Hin n); [now left|exact Ec]].
     destruct (Hok n c Ec) as [Hrefs Hnz].
     destruct (pot_complement_sound (lookup tbl) rk Hok (rk n) (c_geom c) Hrefs Hnz)
@@ -97,8 +99,8 @@ Proof.
       - exists (mkCell g (c_lattice c)). unfold tbl1. rewrite (lookup_update_same tbl n g c Ec). auto.
       - destruct Hm as [Hm|Hm]; [|contradiction]. destruct (Hdone m Hm) as (c1 & E1 & P1).
         exists c1. unfold tbl1. rewrite lookup_update_other by assumption. auto. }
-    destruct (IH tbl1 (fun m => done m \/ m = n) Hok1 Hin1 Hdone1) as (F2 & tbl' & E2 & M2 & K2 & P2).
-    exists (Nat.max F1 F2), tbl'. repeat split.
+    destruct (IH tbl1 (fun m => done m \/ m = n) Hok1 Hin1 Hdone1) as (F2 & tbl' & E2 & M2 & K2 & P2 & T2).
+    exists (Nat.max F1 F2), tbl'. split; [|split; [|split; [|split; [|exact T2]]]].
     + intros f Hf. cbn [eliminate_loop]. rewrite Ec. rewrite Eg by lia. apply E2. lia.
     + intros sg cd Hm. apply M2. apply (meaning_update tbl n g c sg cd Hm Ec). now apply Dg.
     + intros m Hm. apply K2. destruct (N.eq_dec m n) as [->|Hne].
@@ -114,11 +116,12 @@ Theorem eliminate_all_den tbl rk : table_ok (lookup tbl) rk ->
   exists F tbl', (forall f, F <= f -> eliminate_all f tbl = Ok tbl') /\
     forall n c, lookup tbl n = Some c ->
       exists c', lookup tbl' n = Some c' /\ a_plain (c_geom c') = true /\
+        a_nonzero (c_geom c') = true /\
         forall sg cd, cells_meaning (lookup tbl) sg cd ->
           aden cd sg (c_geom c') = aden cd sg (c_geom c).
 Proof.
   intros Hok.
-  destruct (eliminate_loop_sound rk (map fst tbl) tbl (fun _ => False) Hok) as (F & tbl' & E & M & K & P).
+  destruct (eliminate_loop_sound rk (map fst tbl) tbl (fun _ => False) Hok) as (F & tbl' & E & M & K & P & T).
   - intros n Hn Hnone. unfold lookup in Hnone.
     destruct (find (fun p => N.eqb (fst p) n) tbl) as [p|] eqn:Ef; [discriminate|].
     apply in_map_iff in Hn. destruct Hn as ([k ck] & Hk & Hin). cbn in Hk. subst k.
@@ -126,6 +129,6 @@ Proof.
   - intros n [].
   - exists F, tbl'. split; [exact E|]. intros n c Hc.
     destruct (P n (or_intror (lookup_in tbl n c Hc))) as (c' & Ec' & Pc').
-    exists c'. repeat split; auto. intros sg cd Hm.
+    exists c'. split; [exact Ec'|]. split; [exact Pc'|]. split; [exact (proj2 (T n c' Ec'))|]. intros sg cd Hm.
     rewrite <- (M sg cd Hm n c' Ec'). exact (Hm n c Hc).
 Qed.
